@@ -2,17 +2,17 @@ SPECIFICATION Spec
 CONSTANTS
   Seeds <- MCSeeds
   ScenariosOf <- MCScenariosOf
-  MaxRead = 2
+  MaxRead = 6
   KF_FastInvertSkipsStopLine = FALSE
   KF_ReaderByteCountIgnoresPartial = FALSE
-  MaxLines = 5
-  Bodies <- BodiesMX
+  MaxLines = 4
+  Bodies <- BodiesMixed
   CtxMax = 2
-  Terms = {"lf"}
+  Terms = {"lf", "crlf", "nul"}
   Strats = {"reader", "slice"}
-  Paths = {"slow", "fast"}
-  Caps = {2}
-  Flags = {"inv", "pass", "stopnm"}
+  Paths = {"slow", "fast", "cand"}
+  Caps = {1, 2, 3, 4, 7}
+  Flags = {"inv", "stopnm", "pass"}
   Bins = {"none"}
   PlanKinds = {}
 INVARIANTS BufInv ModelOK Emitted
